@@ -52,6 +52,7 @@ class Root:
     nz: Optional[int] = field(default=None, metadata={"type": "Element", "nillable": True})
     nb: Optional[bool] = field(default=None, metadata={"type": "Element", "nillable": True})
     nl: list[str] = field(default_factory=list, metadata={"type": "Element", "nillable": True})
+    nn: Optional[str] = field(default=None, metadata={"type": "Element", "nillable": True})
 '''
 INST_RICH = {"__cls__": "Root", "fields": {
     "ident": {"__p__": "int", "v": -42}, "kind": {"__p__": "str", "v": "a b<&\u00e9"},
@@ -68,7 +69,7 @@ INST_RICH = {"__cls__": "Root", "fields": {
     "sc": [{"__cls__": "Child", "fields": {"value": {"__p__": "int", "v": 9}, "flag": None, "tags": []}},
            {"__cls__": "Child", "fields": {"value": None, "flag": {"__p__": "bool", "v": True}, "tags": []}}],
     "nz": {"__p__": "int", "v": 0}, "nb": {"__p__": "bool", "v": False},
-    "nl": [{"__p__": "str", "v": "a"}, {"__p__": "str", "v": "b c"}]}}
+    "nl": [{"__p__": "str", "v": "a"}, {"__p__": "str", "v": "b c"}], "nn": None}}
 WITNESS_NIL = G.HEADER + '''
 @dataclass
 class B:
@@ -204,7 +205,8 @@ Import ListNotations.
    default, int tokens), elements (str, unqualified str holding '', int list, token list, list of
    token lists, nested simple-content class, a wrapped list of it, an empty wrapped list, a sequence
    group of an int list, an optional str and a class list, nillable int / bool fields holding the falsy
-   values 0 / False and a nillable str list), class namespace urn:a, Meta.name *)
+   values 0 / False, a nillable str list and a nillable str field holding None, written
+   <nn xsi:nil="true"/>), class namespace urn:a, Meta.name *)
 '''
     txt += D("u_rich", "universe", rich["universe"])
     txt += D("root_rich", "cls", rich["root"])
